@@ -324,7 +324,56 @@ pub fn race_names(thorough: bool) -> Vec<&'static str> {
     }
 }
 
+/// "A new version always gets an id above every existing one" where the id gets one more digit or
+/// the newest existing directory has no head: a real backup onto hand-written archives.
+pub fn high_id_cases() -> Vec<(Violation, Value)> {
+    use crate::fmt06::{self, BandSpec, Snap};
+    let mut out = Vec::new();
+    let scratch = Scratch::new("c07ids");
+    let t = crate::common::tree_t1();
+    let src = scratch.fresh("src");
+    crate::tree::materialize(&t, &src);
+    for newest in [9u32, 99, 999, 9999, 10000, 10009] {
+        for headless_newest in [false, true] {
+            let dir = scratch.fresh("a");
+            fmt06::write_archive_skeleton(&dir);
+            for (id, complete) in [(newest.saturating_sub(7), true), (newest - 1, true), (newest, !headless_newest)] {
+                if id == newest && headless_newest {
+                    std::fs::create_dir_all(dir.join(fmt06::band_dir(id)).join("i")).unwrap();
+                } else {
+                    fmt06::write_band(&dir, &BandSpec { id, head: true, tail: complete.then_some(1), hunks: vec![vec![fmt06::symlink_entry("/a", "x")]] });
+                }
+            }
+            let before = Snap::load(&dir);
+            let o = crate::run::do_backup(&dir, &src, &crate::run::BOpts::defaults(), crate::run::NOHOOK, crate::run::Flavor::Current);
+            let after = Snap::load(&dir);
+            let new_ids: Vec<u32> = after.band_ids().into_iter().filter(|b| !before.band_ids().contains(b)).collect();
+            let at = format!("archive with versions up to b{newest}{}: backup {}", if headless_newest { " (a directory without a head)" } else { "" }, o.describe());
+            if o.ok_stats().is_none() || new_ids.len() != 1 || new_ids[0] <= newest {
+                out.push((
+                    Violation::new("C07:new-version-id-not-above-existing:band-ids-with-more-digits", format!("{at}: new version directories {new_ids:?}")),
+                    json!({"kind": "c07-ids"}),
+                ));
+            }
+            for (f, bytes) in &before.files {
+                if after.files.get(f) != Some(bytes) {
+                    out.push((
+                        Violation::new("C07:existing-file-changed:band-ids-with-more-digits", format!("{at}: {f} was altered or removed")),
+                        json!({"kind": "c07-ids"}),
+                    ));
+                    break;
+                }
+            }
+            let _ = std::fs::remove_dir_all(&dir);
+        }
+    }
+    out
+}
+
 pub fn run(report: &Report, budget: &Budget) {
+    for (v, c) in high_id_cases() {
+        report.violation(&v, &c);
+    }
     // Part 1: histories
     let thorough = report.thorough();
     let depth = if thorough { 3 } else { 2 };
